@@ -82,7 +82,7 @@ def fixed_layouts(stmts, quick):
                 # a trailing comment after the non-final line(s) of the statement
                 if not n % (211 if quick else 12):
                     L.append((f"cont:{mk}:trail_comment", i, {"split": {i: [(t, "trail_comment")]}, "fixed_cont_char": mk, "comment_names": True}))
-                if not (n + 1) % (307 if quick else 16) and t + 2 < nt:
+                if not (n + 1) % (41 if quick else 16) and t + 2 < nt:
                     L.append((f"cont:{mk}:trail_comment2", i, {"split": {i: [(t, "trail_comment"), (nt - 1, "trail_comment")]},
                                                                "fixed_cont_char": mk, "comment_names": True}))
                 if not (n + 2) % (401 if quick else 18):
